@@ -43,6 +43,8 @@ fn fixed_zone_file(off: i32) -> PathBuf {
     p
 }
 
+pub static ZONE_FILE_MISSING: std::sync::atomic::AtomicU64 = std::sync::atomic::AtomicU64::new(0);
+
 pub struct Zone {
     pub what: String,
     path: PathBuf,
@@ -53,8 +55,11 @@ pub struct Zone {
 /// winter, the value's own instant may be on the other side of a transition: Local still means the offset *now*).
 pub fn gen_zone(rng: &mut Rng) -> Zone {
     if rng.chance(1, 3) {
-        let (name, sub) = *rng.pick(&[("Europe__Berlin", "fat"), ("America__New_York", "slim"), ("Australia__Lord_Howe", "fat"), ("Europe__Dublin", "fat"), ("Asia__Kolkata", "slim")]);
+        let (name, sub) = *rng.pick(&[("Europe__Paris", "fat"), ("Europe__Vienna", "slim"), ("America__Chicago", "fat"), ("America__Los_Angeles", "fat"), ("Australia__LHI", "fat"), ("Australia__Melbourne", "slim"), ("Europe__Madrid", "slim"), ("Asia__Calcutta", "slim")]);
         let p = verif_root().join("corpus/tzif").join(sub).join(name);
+        if !p.exists() {
+            ZONE_FILE_MISSING.fetch_add(1, std::sync::atomic::Ordering::Relaxed);
+        }
         if p.exists() {
             let now_ts = *rng.pick(&[1_720_000_000i64, 1_705_000_000, 1_711_846_800 - 1, 1_711_846_800, 1_729_990_800, 946_684_800]);
             return Zone { what: format!("{}/{} with the clock at unix {}", sub, name, now_ts), path: p, now_ts };
@@ -133,6 +138,7 @@ pub fn twin_case(rec: &mut Rec, rng: &mut Rng, prop: &'static str, family: Famil
         Ok(None) => {}
         Ok(Some((o, desc, before, ra, rb))) => {
             rec.bin("local-twin/judged");
+            rec.bin(if z.what.starts_with("synthetic") { "local-twin/synthetic-fixed-zone" } else { "local-twin/real-zone-with-transitions" });
             rec.nontrivial(hash_str(&format!("{}{}{}", z.what, i, desc)));
             let opname: String = desc.split('(').next().unwrap_or("").trim().to_string();
             let opname = if opname.starts_with('+') || opname.starts_with('-') { "operator".to_string() } else { opname };
@@ -192,6 +198,7 @@ pub fn twin_pair_case(rec: &mut Rec, rng: &mut Rng, prop: &'static str) {
         Err(p) => rec.violation(format!("{}|local-twin|setup|panic|{},{}", prop, p.class, p.site()), || json!({"zone": z.what, "panic": p.to_json()})),
         Ok((o, same_before, rf, rl, rm)) => {
             rec.bin("local-twin/judged");
+            rec.bin(if z.what.starts_with("synthetic") { "local-twin/synthetic-fixed-zone" } else { "local-twin/real-zone-with-transitions" });
             rec.nontrivial(hash_str(&format!("{}{}{}", z.what, i, j)));
             if !same_before {
                 rec.bin("local-twin/twins-differ-before-the-operation(other-property)");
